@@ -161,6 +161,8 @@ def run(prop, propose=False, replay=None):
         tid = rp["scenario"]["table_id"]
         if tid.startswith("S") and tid[1:].isdigit():
             tables[tid] = D.sweep_table(int(tid[1:]))
+        if tid == "TK":
+            tables[tid] = D.kwargs_named_table()
         scs = [dict(rp["scenario"], table=tables[rp["scenario"]["table_id"]])]
         env_runs = [(rp.get("env") or {}, scs)]
     elif prop == "C18":
